@@ -40,6 +40,7 @@ SPECIAL_TITLES = [
     "500ml bottle 12v 1kg", "Größe XL", "Süße Grüße", "Élégant cœur", "Bäckerstraße 5",
     "daddy puppy mummy", "sense tests sensors", "bell bela pikk", "radar level civic",
     "!!!", "-- --", "???", "",          # titles without any word: they take a position in the store and in the index all the same
+    "node.js guide", "AT&T sim", "Wi\u2011Fi router", "hand\u2013made soap", "3.5g modem", "a/b test", "rock&roll", "co_op mode",
     "ps 4 console", "mp-3 player", "ab c", "a bc def", "electroencephalographic otorhinolaryngological kit", "Fried rice", "Dairy farm",
 ]
 
@@ -204,6 +205,11 @@ def small_store_case(prop, kind, lang, rnd, titles, target_title, extra=None):
         limit = n
     c = Case(prop, kind, lang=lang)
     sid = c.new_store(lang, limit=limit)
+    if rnd.random() < 0.15:
+        # the store held another catalogue before and was cleared (a smaller, an equal or a larger one)
+        for j in range(rnd.choice([1, n, n + 3])):
+            c.add(sid, 800 + j, rnd.choice(titles), rnd.randint(0, 1000))
+        c.op(op="clear", sid=sid)
     ratings = distinct_ratings(rnd, n) if rnd.random() < 0.7 else [rnd.randint(0, 3) for _ in range(n)]
     if crowd and rnd.random() < 0.6:
         ratings[pos] = 0                        # the target is the least popular of the crowd
@@ -314,11 +320,26 @@ def gen_edit_cases(lang, rnd, titles, toks, ncases, per_pos=2):
     return cases
 
 
-def gen_whole_pair_cases(lang, rnd, titles, toks, ncases):
+def compound_echo_titles(rnd, titles, n):
+    """titles in which one word is the run-together spelling of two other words of the same title (plus, sometimes, a
+    suffix), at any position: "pop cornpopper corn", "sunflower sun flower" - the matcher may glue two query words onto it"""
+    ws = sorted({w.lower() for t in titles[:80] for w in t.split(" ") if 2 <= len(w) <= 6 and w.isalpha()})
+    out = []
+    while ws and len(ws) >= 2 and len(out) < n:
+        a, b = rnd.sample(ws, 2)
+        glued = rnd.choice([a + b, b + a]) + rnd.choice(["", "", "s", "per", rnd.choice(ws)[:2]])
+        parts = [a, b, glued]
+        rnd.shuffle(parts)
+        out.append(" ".join(parts))
+    return out
+
+
+def gen_whole_pair_cases(lang, rnd, titles, toks, ncases, extra=()):
     """C13"""
     cases = []
-    for _ in range(ncases):
-        t = rnd.choice(titles)
+    titles = list(titles) + list(extra)
+    for k_ in range(ncases):
+        t = rnd.choice(titles) if not extra or k_ % 8 else rnd.choice(list(extra))
         tok = toks.get((lang, t))
         if not tok or not tok["words"]:
             continue
@@ -1050,6 +1071,24 @@ def gen_dl_cases(rnd, tier):
             for a, b in pairs:
                 c.ops.append(dl_op(2, a, b, lambda ch: cmap[ch], cells_all=0))
             cases.append(c)
+    # one search: the same first argument (the query word) against a series of second arguments (the record words), as
+    # word_match calls it - short words, then one that makes the matrix grow, then short ones again whose best alignment
+    # drops the query's first letters; every pair first on an instance of its own (the memo)
+    for rep in range(4 if tier == "quick" else 40):
+        sub = alpha[:rnd.choice([6, len(alpha)])]
+        vow = [ch for ch in sub if cmap[ch] == "V"] or [sub[0]]
+        stem = "".join(rnd.choice(sub) for _ in range(rnd.randint(5, 8)))
+        q = rnd.choice(vow) + stem
+        series = [stem, q[:4] + rnd.choice(sub), q + "".join(rnd.choice(sub) for _ in range(rnd.randint(14, 24))), stem,
+                  q[1:] + rnd.choice(sub), q[2:], rnd.choice(vow) + q, q]
+        c = Case("C16", "one-query-many-records")
+        for w2 in series:
+            c.op(op="dlnew", inst=99)
+            c.ops.append(dl_op(99, q, w2, lambda ch: cmap[ch], cells_all=0))
+        c.op(op="dlnew", inst=1)
+        for w2 in series:
+            c.ops.append(dl_op(1, q, w2, lambda ch: cmap[ch], cells_all=0))
+        cases.append(c)
     # lopsided growth: both words longer than the current dimension, one much longer than the other, in either argument
     # order, as the first call of an instance and again after it has grown
     for rep in range(3 if tier == "quick" else 20):
@@ -1072,6 +1111,11 @@ def gen_dl_cases(rnd, tier):
     return cases
 
 
+# letters that coincide once a code point is cut to 7, 8 or 16 bits (t, ô, Ŵ-like, Linear B; s ...; a Hangul syllable and
+# the mathematical letter with the same low 16 bits): distinct characters for every set the matcher builds
+COLLIDING = "".join(chr(x) for x in [0x74, 0xF4, 0x174, 0x10074, 0x73, 0xF3, 0x173, 0x10073, 0xD42C, 0x1D42C, 0x61, 0x161])
+
+
 def gen_jac_cases(rnd, tier):
     """C17 / C19: all pairs of short sequences over three symbols, then random long ones (beyond the initial buffer
     capacity of 20) in random call orders, each also swapped, permuted and with repetitions"""
@@ -1092,6 +1136,8 @@ def gen_jac_cases(rnd, tier):
             long_turn = (s % 2 == 0) == (k % 2 == 0)
             hi = rnd.choice([25, 50, 80]) if long_turn else 5
             alpha = "abcdefghijklmnopqrstuvwxyzäöü0123456789"[:rnd.choice([3, 8, 39])]
+            if rnd.random() < 0.2:
+                alpha = COLLIDING
             a = [ord(rnd.choice(alpha)) for _ in range(rnd.randint(0, hi))]
             b = [ord(rnd.choice(alpha)) for _ in range(rnd.randint(0, hi))]
             c.op(op="jac", inst=1, a=a, b=b)
@@ -1120,6 +1166,15 @@ def gen_lsort_cases(rnd, tier):
             items = [[rnd.randint(0, rnd.choice([2, 5, 100])), i] for i in range(m)]
             c.op(op="lsort", items=items, limit=rnd.randint(0, 8), stable=rnd.random() < 0.3)
         cases.append(c)
+    # input lengths that are exact multiples of the limit (the chunked selection compacts at 2 x limit), one more, one less
+    c = Case("C06", "limitsort-multiples")
+    for limit in range(1, 9 if tier == "quick" else 21):
+        for k in (1, 2, 3, 4):
+            for off in (-1, 0, 1):
+                m = max(0, k * limit + off)
+                items = [[rnd.randint(0, rnd.choice([3, 100])), i] for i in range(m)]
+                c.op(op="lsort", items=items, limit=limit, stable=rnd.random() < 0.3)
+    cases.append(c)
     return cases
 
 
@@ -1271,6 +1326,26 @@ def gen_prepare_cases(lang, rnd, titles, toks, ncases):
             c.op(op="prepare", sid=sid, q=cps(qrep), size=1)
             c.op(op="prepare", sid=sid, q=cps(x + x + x + x + " " + v[:2]), size=1)
             c.op(op="prepare", sid=sid, q=cps(v + " " + v + " " + v[:2]), size=1)
+        cases.append(c)
+    # exactly k x (10 x size) records share a gram with the query, with differing overlaps in scrambled order: the cap, twice
+    # the cap, three times (the selection compacts its buffer at twice the cap), one more and one less
+    letters = script_letters(lang)
+    for size in (1, 2):
+        c = Case("C18", "prepare-multiples", lang=lang)
+        sid = c.new_store(lang)
+        w = rand_word(rnd, letters, 8, 10)
+        nid = 1
+        have = 0
+        for k in (1, 2, 3):
+            for off in (-1, 0, 1):
+                target = k * 10 * size + off
+                while have < target:
+                    cut = rnd.randint(1, len(w))
+                    c.add(sid, nid, w[:cut] + rnd.choice(["", " " + rand_word(rnd, letters, 2, 4)]), rnd.randint(0, 100))
+                    nid += 1
+                    have += 1
+                c.op(op="prepare", sid=sid, q=cps(w), size=size)
+                c.op(op="prepare", sid=sid, q=cps(w[:3]), size=size)
         cases.append(c)
     return cases
 
@@ -1482,6 +1557,16 @@ def gen_table_store_cases(lang, rnd, prop="C02"):
         for q in qs:
             c.search(sid, q, alt=[dict(l=cps("<"), r=cps(">"))])
         c.search(sid, "")
+        if prop == "C11" and any(len(a) == 2 for a, b in items[k:k + 6]):
+            # the same titles stored precomposed: every composition pair of the table must give the stored-decomposed
+            # store the same hits and the same returned titles (upper-case pairs included)
+            sid2 = c.new_store(lang)
+            for j, (a, b) in enumerate(items[k:k + 6]):
+                c.add(sid2, 100 + j, cps("ta") + b + cps("lo x") + b, j)
+            for qi, q in enumerate([cps("ta"), cps("x"), [], cps("talo")] + [cps("ta") + b for a, b in items[k:k + 6]][:3]):
+                tag = "pc%d" % qi
+                c.search(sid2, q, tag=tag)
+                c.search(sid, q, expect=dict(prop="C11", kind="decomposed", tag=tag))
         if prop == "C11":
             # every table entry as a query variant: the letter itself against its decomposed / folded / other-case spelling
             decomp = {b[0]: a for a, b in tab["compose"]}
@@ -1600,7 +1685,7 @@ def gen_gate_cases(rnd, tier):
     """C17 at the call site: the Jaccard pre-filter of word_match (matching/word.rs) on literal word pairs - a word and
     its single edits / prefixes, over alphabets that include look-alike code points (digits, letters 64 or 256 apart)"""
     cases = []
-    alphas = ["abcde", "ts34-m", "aeiou", "abcdefghijklmnopqrstuvwxyz", "tд4ьs3é)i", "øoOo0"]
+    alphas = ["abcde", "ts34-m", "aeiou", "abcdefghijklmnopqrstuvwxyz", "tд4ьs3é)i", "øoOo0", COLLIDING, COLLIDING]
     n = 40 if tier == "quick" else 800
     for k in range(n):
         c = Case("C17", "gate")
@@ -1615,6 +1700,50 @@ def gen_gate_cases(rnd, tier):
                 continue
             c.op(op="gate", r=w, q=v, qfin=rnd.random() < 0.4)
         cases.append(c)
+    return cases
+
+
+def gen_family_cases(prop, lang, rnd, ncases):
+    """C07 (C06, C10): a family of titles around one stem - the stem, the stem behind an extra leading vowel, the same with a
+    tail that makes the word longer than the distance matrix's initial capacity (so the thread's matrix grows in the
+    middle of a search), a near namesake - asked with typo'd spellings, in every insertion order and pairwise"""
+    cases = []
+    letters = script_letters(lang)
+    vowels = [ch for ch in letters if ch in "aeiouаеиоу"] or letters[:3]
+    cons = [ch for ch in letters if ch not in vowels] or letters
+    for k in range(ncases):
+        stem = rnd.choice(cons) + "".join(rnd.choice(letters) for _ in range(rnd.randint(5, 8)))
+        v = rnd.choice(vowels)
+        tail = "".join(rnd.choice(letters) for _ in range(rnd.randint(21 - len(stem), 30 - len(stem))))
+        other = "".join(rnd.choice(letters) for _ in range(3))
+        titles = [v + stem, v + stem + tail, stem, v + stem[:3] + other]
+        if k % 2:
+            titles = [t + " " + rnd.choice(["x", "kit", "set"]) for t in titles]
+        rnd.shuffle(titles)
+        rt = distinct_ratings(rnd, len(titles))
+        full = v + stem
+        i = rnd.randrange(2, len(full))
+        qs = [full[:4], full[:i] + full[i + 1:], full, full[:i] + full[i:i + 1] + full[i:], stem[:4], v + stem[1:]]
+        n = len(titles)
+        for q in rnd.sample(qs, 3):
+            # one query per case: every case runs on a thread of its own, so the matrix grows during this very search
+            c = Case(prop, "family", lang=lang)
+            sid = c.new_store(lang)
+            for i2, t in enumerate(titles):
+                c.add(sid, 100 + i2, t, rt[i2])
+            want, kw = ["qtok", "singles", "unlimited"], {}
+            if prop == "C07":
+                want = ["qtok", "pairs"]
+                perms = [list(reversed(range(n)))]
+                for _p in range(3):
+                    o = list(range(n))
+                    rnd.shuffle(o)
+                    perms.append(o)
+                kw = dict(max_pairs=6, perms=perms)
+            elif prop == "C10":
+                want = ["qtok", "fresh"]
+            c.search(sid, q, want=want, **kw)
+            cases.append(c)
     return cases
 
 
